@@ -474,6 +474,43 @@ Proof.
   rewrite S3. unfold slice_bytes. rewrite T1, T2, P1, S0. reflexivity.
 Qed.
 
+(* consume_spaces really consumes: at least one byte *)
+Lemma consume_spaces_lt : forall s s', SInv text s -> consume_spaces text s = Ok s' ->
+  s_pos s < s_pos s'.
+Proof.
+  intros s s' H E. unfold consume_spaces in E.
+  destruct (at_end s) eqn:Eae; [discriminate|].
+  destruct (starts_with_space s) eqn:Ess; cbn [negb] in E; [|binv E as x Ex; not_ok E].
+  injection E as <-.
+  destruct (skip_bytes_adv byte_is_space s H) as ((_ & L & _) & _ & Stop).
+  destruct (N.lt_ge_cases (s_pos s) (s_pos (skip_spaces s))) as [Lt|Ge]; [exact Lt|exfalso].
+  unfold starts_with_space, curr_byte_opt in Ess. rewrite Eae in Ess.
+  destruct (s_rest s) as [|x r] eqn:Er; [discriminate|].
+  unfold skip_spaces, skip_bytes, at_end in *. cbn [s_pos s_end s_rest] in *. rewrite Er in *.
+  set (n := scan byte_is_space (x :: r) (N.to_nat (s_end s - s_pos s))) in *.
+  assert (n = 0%nat) as -> by lia. cbn [skipn] in Stop.
+  destruct Stop as [St|(y & r' & Ey & Fy)]; [lia|]. injection Ey as <- _. congruence.
+Qed.
+
+(* directly in front of "?>" the PI content is empty *)
+Lemma pi_content_empty : forall s sl s', SInv text s -> starts_with s (b "?>") = true ->
+  consume_chars text (fun s ch => negb ((ch =? 63) && starts_with s (b "?>"))) s = Ok (sl, s') ->
+  s_pos s' = s_pos s.
+Proof.
+  intros s sl s' H SW E. unfold consume_chars in E. binv E as s1 E1. binv E as sl1 E2.
+  injection E as _ <-. unfold skip_chars in E1. cbn [skip_chars_loop] in E1.
+  destruct (starts_with_sub _ _ H SW) as [S2 L2]. change (blen (b "?>")) with 2 in *.
+  rewrite sub_rest in S2 by exact H. change (b "?>") with [63; 62] in S2.
+  destruct (s_rest s) as [|x r] eqn:Er; [destruct (N.to_nat _); discriminate|].
+  destruct (N.to_nat _); [discriminate|]. injection S2 as -> _.
+  unfold next_char in E1. replace (at_end s) with false in E1 by (unfold at_end; lia).
+  rewrite Er in E1. cbn [decode1] in E1. change (63 <? 128) with true in E1. cbv iota in E1.
+  destruct (s_end s <? s_pos s + 1); [discriminate|]. cbn [bind] in E1.
+  replace (char_is_char 63) with true in E1 by (vm_compute; reflexivity). cbn [negb] in E1.
+  rewrite SW in E1. change (63 =? 63) with true in E1. cbn [andb negb] in E1.
+  injection E1 as <-. reflexivity.
+Qed.
+
 Theorem parse_pi_post : forall s acc s' acc', SInv text s ->
   starts_with s (b "<?") = true ->
   parse_pi text (list token) rec_ev s acc = Ok (s', acc') ->
@@ -482,7 +519,7 @@ Theorem parse_pi_post : forall s acc s' acc', SInv text s ->
     prefix_b (b "<?") (sub text (s_pos s) (s_pos s')) = true /\
     sub text (s_pos s' - 2) (s_pos s') = b "?>" /\
     match value with
-    | Some v => slice_len v <> 0 /\ sl_end v + 2 = s_pos s' /\ sl_end target <= sl_start v /\
+    | Some v => slice_len v <> 0 /\ sl_end v + 2 = s_pos s' /\ sl_end target < sl_start v /\
                 forallb byte_is_space (sub text (sl_end target) (sl_start v)) = true /\
                 (exists x, hd_error (slice_bytes text v) = Some x /\ byte_is_space x = false)
     | None => forallb byte_is_space (sub text (sl_end target) (s_pos s' - 2)) = true
@@ -490,14 +527,31 @@ Theorem parse_pi_post : forall s acc s' acc', SInv text s ->
 Proof.
   intros s acc s' acc' H SW E. unfold parse_pi in E.
   destruct (starts_with s (b "<?xml ")); [not_ok E|]. cbv zeta in E.
-  binv E as s1 E1. binv E as [target s2] E2.
-  unfold skip_spaces in E. set (s3 := skip_bytes byte_is_space s2) in *.
+  binv E as s1 E1. binv E as [target s2] E2. binv E as s3 E3.
   binv E as [content s4] E4. binv E as s5 E5.
   rewrite rec_ev_eq in E. cbn [bind] in E. injection E as <- <-.
   destruct (advance_adv _ _ _ H E1) as [A1 P1].
   destruct (consume_name_adv _ _ _ (Adv_inv _ _ A1) E2) as (A2 & T1 & T2).
-  destruct (skip_bytes_adv byte_is_space s2 (Adv_inv _ _ A2)) as (A3 & F3 & Stop3).
-  fold s3 in A3, F3, Stop3.
+  assert (X3 : Adv s2 s3 /\
+    forallb byte_is_space (sub text (s_pos s2) (s_pos s3)) = true /\
+    (at_end s3 = true \/ exists x r, s_rest s3 = x :: r /\ byte_is_space x = false) /\
+    (s_pos s2 < s_pos s3 \/ s_pos s4 = s_pos s3)).
+  { destruct (starts_with s2 (b "?>")) eqn:SW2.
+    - injection E3 as <-. split; [apply Adv_refl, (Adv_inv _ _ A2)|].
+      split; [rewrite sub_nil; reflexivity|].
+      split; [|right; exact (pi_content_empty _ _ _ (Adv_inv _ _ A2) SW2 E4)]. right.
+      destruct (starts_with_sub _ _ (Adv_inv _ _ A2) SW2) as [S2 _].
+      rewrite sub_rest in S2 by apply A2.
+      destruct (s_rest s2) as [|x r]; [destruct (N.to_nat _); discriminate|].
+      exists x, r. split; [reflexivity|].
+      destruct (N.to_nat _); [discriminate|]. injection S2 as -> _. reflexivity.
+    - pose proof (consume_spaces_lt _ _ (Adv_inv _ _ A2) E3) as Lt3.
+      unfold consume_spaces in E3. destruct (at_end s2); [discriminate|].
+      destruct (starts_with_space s2); cbn [negb] in E3.
+      + injection E3 as <-.
+        destruct (skip_bytes_adv byte_is_space s2 (Adv_inv _ _ A2)) as (X & Y & Z). auto.
+      + binv E3 as x Ex. not_ok E3. }
+  destruct X3 as (A3 & F3 & Stop3 & Sep3).
   destruct (consume_chars_adv _ _ _ _ (Adv_inv _ _ A3) E4) as (A4 & C1 & C2).
   destruct (skip_string_adv _ _ _ (Adv_inv _ _ A4) E5) as (A5 & P5 & S5).
   destruct (starts_with_sub _ _ H SW) as [S0 _].
@@ -514,7 +568,8 @@ Proof.
   - replace (s_pos s5 - 2) with (s_pos s4) by lia. exact S5.
   - unfold slice_len. destruct (sl_end content - sl_start content =? 0) eqn:EL.
     + replace (s_pos s5 - 2) with (s_pos s3) by lia. rewrite T2. exact F3.
-    + split; [unfold slice_len; lia|]. split; [lia|]. split; [lia|].
+    + split; [unfold slice_len; lia|]. split; [lia|].
+      split; [apply N.eqb_neq in EL; lia|].
       split; [rewrite T2, C1; exact F3|].
       destruct Stop3 as [St|[x [r [Er Fx]]]].
       * exfalso. unfold at_end in St.
@@ -582,7 +637,8 @@ Lemma parse_pi_tok : forall s acc s' acc',
 Proof.
   intros s acc s' acc' E. unfold parse_pi in E.
   destruct (starts_with s (b "<?xml ")); [not_ok E|]. cbv zeta in E.
-  binv E as s1 E1. binv E as [target s2] E2. binv E as [content s4] E4. binv E as s5 E5.
+  binv E as s1 E1. binv E as [target s2] E2. binv E as s3 E3.
+  binv E as [content s4] E4. binv E as s5 E5.
   rewrite rec_ev_eq in E. cbn [bind] in E. injection E as <- <-. eauto.
 Qed.
 
